@@ -779,3 +779,117 @@ func rulePopulationInsertSites(p *Program, r *Result, gk string, inserter *ssa.F
 }
 
 var _ = strings.Contains
+
+// ruleGoroutineGaugePaired (C20): the goroutine gauge lives in the WaitGroup Add/Done wrappers; per spawned
+// connection goroutine exactly one Add(1) and one Done run: Done is deferred in the goroutine's entry block
+// with nothing but the Add wrapper before it, and the single Add(1) either dominates the go statement in
+// the same iteration of the accept loop or is the first call of the goroutine itself. Where the Add sits
+// matters to shutdown (C17), not to conservation.
+func ruleGoroutineGaugePaired(p *Program, r *Result) {
+	ro := rolesOK(p, r)
+	n := 0
+	for _, S := range ro.Serves {
+		accBlocks := map[*ssa.BasicBlock]bool{}
+		for _, c := range invokesNamed(S, "Accept") {
+			accBlocks[c.Block()] = true
+		}
+		for _, b := range S.Blocks {
+			for _, in := range b.Instrs {
+				g, ok := in.(*ssa.Go)
+				if !ok || g.Call.StaticCallee() == nil {
+					continue
+				}
+				n++
+				G := g.Call.StaticCallee()
+				key := fnKey(S) + ":b:goroutine-gauge-paired:" + fnKey(G)
+				if len(G.Blocks) == 0 {
+					r.undecided("R-PAIR", key, p.Pos(g.Pos()), "goroutine function without body")
+					continue
+				}
+				addsIn, doneFirst := 0, false
+				for _, gi := range G.Blocks[0].Instrs {
+					if d, ok := gi.(*ssa.Defer); ok && wrapsWaitGroup(d.Call.StaticCallee(), "Done") {
+						doneFirst = true
+						break
+					}
+					if c, ok := gi.(*ssa.Call); ok {
+						if wrapsWaitGroup(c.Common().StaticCallee(), "Add") && len(c.Common().Args) >= 2 {
+							if d, _ := constInt(c.Common().Args[1]); d == 1 {
+								addsIn++
+								continue
+							}
+						}
+						break
+					}
+					if _, ok := gi.(*ssa.If); ok {
+						break
+					}
+				}
+				addsOut := 0
+				for _, c := range allCalls(S) {
+					if _, isGo := c.(*ssa.Go); isGo {
+						continue
+					}
+					if !wrapsWaitGroup(c.Common().StaticCallee(), "Add") {
+						continue
+					}
+					d := int64(0)
+					if len(c.Common().Args) >= 2 {
+						d, _ = constInt(c.Common().Args[1])
+					}
+					if d == 1 && domInstr(c, g) && (c.Block() == g.Block() || blockReach(c.Block(), accBlocks)[g.Block()]) && mustReachBlock(c.Block(), g.Block(), accBlocks) {
+						addsOut++
+					} else {
+						addsOut += 2 // an Add that is not the paired one
+					}
+				}
+				// other Add/Done sites anywhere else in the goroutine function
+				extra := 0
+				for _, c := range allCalls(G) {
+					f := c.Common().StaticCallee()
+					if wrapsWaitGroup(f, "Add") || wrapsWaitGroup(f, "Done") {
+						extra++
+					}
+				}
+				extra -= addsIn
+				if doneFirst {
+					extra--
+				}
+				r.cond(doneFirst && addsIn+addsOut == 1 && extra == 0, "R-PAIR", key, p.Pos(g.Pos()),
+					"per connection goroutine exactly one Add(1) (before the go statement or as the goroutine's first call) and one deferred Done run: the goroutine gauge returns to rest",
+					fmt.Sprintf("Add/Done of the goroutine gauge are not one-to-one per connection goroutine (Done deferred first: %v, Add(1) in the goroutine: %d, before the go statement: %d, other Add/Done in the goroutine: %d)", doneFirst, addsIn, addsOut, extra))
+			}
+		}
+	}
+	if n == 0 {
+		r.undecided("R-PAIR", "b:goroutine-gauge-paired", "-", "no go statement in the accept loop")
+	}
+}
+
+// mustReachBlock: every path from block a reaches block g before any block in stop (or a return).
+func mustReachBlock(a, g *ssa.BasicBlock, stop map[*ssa.BasicBlock]bool) bool {
+	if a == g {
+		return true
+	}
+	seen := map[*ssa.BasicBlock]bool{}
+	var walk func(b *ssa.BasicBlock) bool
+	walk = func(b *ssa.BasicBlock) bool {
+		if b == g {
+			return true
+		}
+		if seen[b] {
+			return true
+		}
+		seen[b] = true
+		if (stop[b] && b != a) || len(b.Succs) == 0 {
+			return false
+		}
+		for _, s := range b.Succs {
+			if !walk(s) {
+				return false
+			}
+		}
+		return true
+	}
+	return walk(a)
+}
